@@ -153,6 +153,39 @@ func (sc *specCtx) lookupLocal(name string) (Value, bool) {
 	return Value{}, false
 }
 
+func (sc *specCtx) uncaptured(name string) (Value, bool) {
+	x := sc.x
+	fn := x.Fn
+	if sc.f != nil {
+		fn = sc.f.fn
+	}
+	if fn == nil || fn.Parent() == nil {
+		return Value{}, false
+	}
+	if v, ok := x.uncapturedVals[name]; ok {
+		return v, true
+	}
+	for p := fn.Parent(); p != nil; p = p.Parent() {
+		for _, b := range p.Blocks {
+			for _, in := range b.Instrs {
+				if a, ok := in.(*ssa.Alloc); ok && a.Comment == name {
+					// as a captured variable would be: a pointer to its cell
+					v := FreshValue("uncaptured."+name, a.Type())
+					x.assumeTrue(WFValue(v))
+					x.assumeTrue(And(Gt(v.C[0], Num(0)), Le(v.C[0], Var(clockName, SInt))))
+					if x.uncapturedVals == nil {
+						x.uncapturedVals = map[string]Value{}
+					}
+					x.uncapturedVals[name] = v
+					x.note("the contract names " + name + " of the enclosing function, which this closure does not capture: treated as arbitrary")
+					return v, true
+				}
+			}
+		}
+	}
+	return Value{}, false
+}
+
 func (sc *specCtx) eval(e ast.Expr) Value {
 	x := sc.x
 	switch e := e.(type) {
@@ -201,6 +234,11 @@ func (sc *specCtx) eval(e ast.Expr) Value {
 			if obj := sc.pkg.Scope().Lookup(e.Name); obj != nil {
 				return sc.objValue(e, obj)
 			}
+		}
+		// a closure's contract that names a variable of the enclosing function which the closure does not
+		// capture: the closure cannot depend on it, so the clause must hold for every value of it
+		if v, ok := sc.uncaptured(e.Name); ok {
+			return v
 		}
 		sc.errf(e, "unknown identifier")
 	case *ast.UnaryExpr:
